@@ -125,12 +125,39 @@ def wrap(data, j):
     return xr.DataArray(data, dims=dims)
 
 
-def np_raster(j):
+def layout(d, how):
+    """the same values in another memory layout: F-ordered, transposed view of a C array, strided view of a
+    larger array, doubly reversed view (negative strides)"""
+    if how == "F":
+        return np.asfortranarray(d)
+    if how == "T":
+        return np.ascontiguousarray(d.T).T
+    if how == "S":
+        big = np.zeros((2 * d.shape[0] + 1, 3 * d.shape[1]), dtype=d.dtype)
+        big[1::2, ::3] = d
+        return big[1::2, ::3]
+    if how == "R":
+        return d[::-1, ::-1].copy()[::-1, ::-1]
+    return d
+
+
+def np_raster(j, negate=False):
     data = np.array([[val(v) for v in row] for row in j["X"]], dtype=np.float64)
+    if negate:
+        data = -data
     dt = j.get("dtype", "float64")
+    if negate and dt.startswith("uint"):
+        dt = "float64"                      # the negated raster of an unsigned one is given as floats
     if dt != "float64":
         data = data.astype(dt)
-    return data
+    return layout(data, j.get("layout", "C"))
+
+
+def kernel_of(j, rows, floats=False):
+    """kernel as the user may pass it: int / float / bool array, C- or F-ordered"""
+    vals = [[val(v) for v in row] for row in rows] if floats else rows
+    k = np.array(vals, dtype=j.get("kdtype", "float64"))
+    return np.asfortranarray(k) if j.get("korder") == "F" else k
 
 
 def raster(j):
@@ -174,7 +201,7 @@ def enc_matrix(a, D, tol, square=False):
 
 def job_apply(j):
     r = raster(j)
-    k = np.array(j["K"], dtype=j.get("kdtype", "float64"))
+    k = kernel_of(j, j["K"])
     ones = int(min(max(1, int(np.sum(np.array(j["K"]) == 1))), r.shape[0] * r.shape[1]))
     vm = vmax_of(j)
     xd = den_of(j)
@@ -225,7 +252,8 @@ def job_mean(j):
         kw["passes"] = passes
     o = comp(F.mean(r, **kw).data, j)
     # denominators after p passes divide d (p=0), 9d.. (p=1: d*n, n<=9), d*lcm(1..9)*9 (p=2)
-    D = den_of(j) * (1, 9, 22680)[passes] if passes <= 2 else 10 ** 9
+    # (passes = 3 is only generated for rasters whose windows have 2, 3, 4 or 6 cells: denominators stay tiny)
+    D = den_of(j) * (1, 9, 22680)[passes] if passes <= 2 else den_of(j) * 10 ** 5
     tol = 64 * 2.3e-16 * vmax_of(j)
     return {"kind": "mean", "X": [[qval(v) for v in row] for row in j["X"]], "passes": passes,
             "only_excl": int(j.get("only_excl", 0)),
@@ -235,7 +263,7 @@ def job_mean(j):
 
 def job_conv(j):
     r = raster(j)
-    w = np.array([[val(v) for v in row] for row in j["Wt"]], dtype=j.get("kdtype", "float64"))
+    w = kernel_of(j, j["Wt"], floats=True)
     o = comp(C.convolution_2d(r, w).data, j)
     wd = 1
     wsum_abs = 0.0
@@ -257,9 +285,9 @@ def enc_int(a):
 
 def job_hot(j):
     r = raster(j)
-    k = np.array(j["K"], dtype=j.get("kdtype", "float64"))
+    k = kernel_of(j, j["K"])
     o = comp(F.hotspots(r, k).data, j)
-    neg = wrap(-np_raster(j), j)
+    neg = wrap(np_raster(j, negate=True), j)
     on = comp(F.hotspots(neg, k).data, j)
     return {"kind": "hot", "X": [[qval(v) for v in row] for row in j["X"]], "K": j["K"],
             "out": enc_int(o), "outneg": enc_int(on), "band": j.get("band", 1),
